@@ -33,12 +33,29 @@ def _solve_one(args):
     has_quant = "forall" in f.sexpr() or "exists" in f.sexpr()
     model = None
     smt2 = None
+    # relevance: a VC that stays open under all hypotheses is retried with the most recent ones only (the assumed hints,
+    # cuts and callee postconditions closest to the goal) plus every quantifier-free fact - fewer hypotheses, so `unsat`
+    # there is `unsat` of the full VC; `sat` / `unknown` there mean nothing
+    hyps = list(getattr(ob, "hyps", []) or [])
+    tail_sizes = (14, 40) if len(hyps) > 30 else ()
+    tails = [None] * len(tail_sizes)            # built on demand (only VCs the default configuration leaves open get there)
+
+    def tail_formula(i):
+        if tails[i] is None:
+            n = tail_sizes[i]
+            sub = [h for j, h in enumerate(hyps) if j >= len(hyps) - n or not z3.is_quantifier(h)]
+            tails[i] = z3.And(*sub, z3.Not(ob.goal))
+        return tails[i]
+    configs = configs[:1] + [({"__tail__": i}, min(first, 2500 if i == 0 else 4000)) for i in range(len(tail_sizes))] + configs[1:]
+    cvc5_after = 1 if tail_sizes else 0        # cvc5 gets its turn after the default configuration and the short relevance retry
     for k, (opts, ms) in enumerate(configs):
         s = z3.Solver()
         s.set("timeout", ms)
+        tail = opts.get("__tail__")
         for o, v in opts.items():
-            s.set(o, v)
-        s.add(f)
+            if o != "__tail__":
+                s.set(o, v)
+        s.add(f if tail is None else tail_formula(tail))
         try:
             r = s.check()
         except z3.Z3Exception as e:  # pragma: no cover
@@ -48,7 +65,7 @@ def _solve_one(args):
             res = "unsat"
             model = None
             break
-        if r == z3.sat:
+        if r == z3.sat and tail is None:
             # a model of a *quantified* VC is only a candidate (instantiation-based reasoning is incomplete in
             # both directions in practice): keep it, but let the other strategies try to prove the VC
             if res != "sat":
@@ -60,11 +77,13 @@ def _solve_one(args):
                     except Exception as e:  # pragma: no cover
                         model = {"__error__": str(e)[:200]}
             break      # replay on the real code decides whether the counter-model is genuine
-        if k == 0:
-            # second back end right after the first failed attempt: cvc5 on the same text.  Only `unsat` is
+        if k == cvc5_after:
+            # second back end right after the first failed attempts: cvc5 on the same text.  Only `unsat` is
             # taken from it (a `sat` on a quantified VC is not a trusted refutation; replay decides).
             try:
-                smt2 = s.to_smt2()
+                sf = z3.Solver()
+                sf.add(f)
+                smt2 = sf.to_smt2()
                 res2 = run_cvc5(smt2, max(3, first // 1000))
                 if res2 == "unsat":
                     res, backend, model = "unsat", "cvc5", None
